@@ -6,6 +6,7 @@ import (
 	"fmt"
 	"hash"
 	"sort"
+	"strings"
 	"sync/atomic"
 	"time"
 )
@@ -111,10 +112,13 @@ func (w *World) logCall(p *Party, r *CallResult) {
 	for _, e := range r.Events {
 		ev += " " + e.String()
 	}
-	outs := ""
+	// (a Send can return 65 000 fragments: build the line in linear time)
+	var ob strings.Builder
 	for _, o := range r.Out {
-		outs += " " + short(o)
+		ob.WriteByte(' ')
+		ob.WriteString(short(o))
 	}
+	outs := ob.String()
 	w.Logf("#%d %s.%s in=%s plain=%s out=[%s] err=%q panic=%q ev=[%s] enc=%v ssid=%x fp=%.8s tt=%x hl=%d rd=%d",
 		r.Seq, p.Name, r.Kind, short(r.In), short(r.Plain), outs, r.Err, r.Panic, ev,
 		r.Post.Enc, r.Post.SSID, r.Post.FP, r.Post.TheirTag, r.Post.HL, p.Rand.Reads())
